@@ -13,3 +13,13 @@ func verifBlinding(bl, br, bo, bz []fr.Element) {
 		VerifHookBlinding(bl, br, bo, bz)
 	}
 }
+
+// VerifHookPostSolve, when set, is called by Prove with the solved L, R, O columns; it may overwrite
+// entries (to obtain "proofs" computed from values that violate a gate or a copy constraint).
+var VerifHookPostSolve func(l, r, o []fr.Element)
+
+func verifPostSolve(l, r, o []fr.Element) {
+	if VerifHookPostSolve != nil {
+		VerifHookPostSolve(l, r, o)
+	}
+}
